@@ -367,6 +367,12 @@ def check_crate(fx, rep, crate, cn):
                   'State::set stores the value and hands it to the channel on every path', 'State::set does not both store the value and broadcast it on every path '
                   '(a set that is not broadcast - e.g. skipped because the value is unchanged - is never seen by a subscriber that has not received that value yet)',
                   {'stores': len(stores), 'sends': [t['callee'].get('name') for _, t in sends], 'path_without_broadcast': skip_send, 'path_without_store': skip_store})
+        # exactly one value goes into the channel per set(): a second send - of a value the channel handed back (in overflow mode that is the *oldest*
+        # queued value it evicted), of the previous value, of anything - overwrites the one just set in a capacity-1 channel
+        rep.check(len(sends) == 1, 'R20.5', '%s|%s|set-broadcasts-once' % (cn, sbd.path), sbd.where(),
+                  'State::set hands exactly one value to the channel',
+                  'State::set sends %d values into the capacity-1 channel (%s): the later send evicts the value just set, so a subscriber that has not caught up converges on a stale value'
+                  % (len(sends), ', '.join(t['callee'].get('name') for _, t in sends)))
     # ---- R20.8 set() cannot panic on the channel's answer
     if setb:
         sbd = C.async_body(crate, setb[0])
